@@ -1,8 +1,9 @@
 (* C07 — the universal set has 2N+1 distinct strings of length N and generates su(2^N).
    Proved for all N, k: size, string length and (k >= 2) pairwise distinctness (Theory/UniversalT.v; the older
-   bounded computation for N <= 12 is kept).  Generation: REFUTED for every odd k and every N; proved for even k and N <= 6 by computation with the
-   verified closure.  Even k at larger N is explored, not proved. *)
-From PauLie Require Import Pauli Sym ClSym InvarT Compiler CompilerT ClosureN UniversalT.
+   bounded computation for N <= 12 is kept).  Generation: REFUTED for every odd k and every N; PROVED for every even k and every N
+   (Theory/ExtendT.v: one more qubit at a time; Theory/LeftFullT.v: the left set on an even number of qubits);
+   the older computation with the verified closure for N <= 6 is kept. *)
+From PauLie Require Import Pauli Sym ClSym InvarT Compiler CompilerT ClosureN UniversalT ExtendT LeftFullT.
 
 Theorem C07_size : forall N k U, universal N k = Ok U ->
   length U = (2 * N + 1)%nat /\ forall g, In g U -> length g = N.
@@ -21,6 +22,20 @@ Theorem C07_refuted_odd_k : forall N k U, Nat.odd k = true -> (3 <= k < N)%nat -
   x0x1 N <> identity N /\ length (x0x1 N) = N /\ ~ ClL (fun g => In g U) (x0x1 N).
 Proof. exact c07_refuted_odd_k. Qed.
 Print Assumptions C07_refuted_odd_k.
+
+(* even k, every N: the commutator closure of the universal set is exactly the set of the 4^N - 1 non-identity
+   strings of length N *)
+Theorem C07_even_k : forall N k U, Nat.even k = true -> (2 <= k)%nat -> universal N k = Ok U ->
+  forall p, ClL (fun g => In g U) p <-> (length p = N /\ p <> identity N).
+Proof. exact universal_generates_all. Qed.
+Print Assumptions C07_even_k.
+(* the step that fails for one-qubit H (and so for odd k): with n >= 2 qubits fully generated, one more qubit and the
+   two generators w(x)X, w(x)Z give everything on n+1 qubits *)
+Theorem C07_one_more_qubit : forall n (H : pstr -> Prop) w, (2 <= n)%nat -> (forall h, H h -> length h = n) ->
+  (forall p, length p = n -> p <> identity n -> ClL H p) -> length w = n -> w <> identity n ->
+  forall p, length p = S n -> p <> identity (S n) -> ClL (Gext H w) p.
+Proof. exact extend_full. Qed.
+Print Assumptions C07_one_more_qubit.
 
 Theorem C07_even_k_bounded : forall N k, (3 <= N <= 6)%nat -> (2 <= k < N)%nat -> Nat.even k = true ->
   closure_card N (uni N k) = Some (Nat.pow 4 N - 1)%nat.
